@@ -581,12 +581,17 @@ pub fn render_canonical(toks: &[Tok]) -> String {
 
 /// tightest rendering: empty gaps wherever allowed, single space elsewhere
 pub fn render_tight(toks: &[Tok]) -> String {
-    for strict in [false, true] {
+    // first attempt: also operator against operator (`2**3`, `a*-b`, `!-x`); the re-lex below throws the attempt away
+    // whenever two operator characters would fuse (`= =`, `& &`, `/ *`, `/ /`, …)
+    for (strict, op_op) in [(false, true), (false, false), (true, false)] {
         let mut s = String::new();
         for (i, t) in toks.iter().enumerate() {
             s.push_str(&t.text());
-            if i + 1 < toks.len() && !may_be_empty_opt(t, &toks[i + 1], strict) {
-                s.push(' ');
+            if i + 1 < toks.len() {
+                let both_ops = op_op && matches!(t, Tok::Op(_)) && matches!(&toks[i + 1], Tok::Op(_));
+                if !both_ops && !may_be_empty_opt(t, &toks[i + 1], strict) {
+                    s.push(' ');
+                }
             }
         }
         if let Ok(l) = lex(&s) {
